@@ -224,7 +224,15 @@ def arr_inplace(ex, op, cur: VRef, val):
                 ex.throw("TypeError", "Cannot cast ufunc output with casting rule 'same_kind'")
     if exact:
         if not is_conc(c.dtype.v) or (ex.is_arr(val) and not is_conc(cell(ex, val).dtype.v)):
-            if ex.st.choose([True, True]) == 1:
+            # a floating-point destination accepts every real operand under 'same_kind'; otherwise the outcome depends on types
+            # that are not known here: may raise
+            dest_float = dtype_in(ex, c.dtype, ["float16", "float32", "float64"])
+            dest_float = dest_float if not isinstance(dest_float, bool) else z3.BoolVal(dest_float)
+            if ex.is_arr(val):
+                REAL = ["bool", "float16", "float32", "float64"] + list(UINT_DT) + list(INT_DT)
+                op_real = dtype_in(ex, cell(ex, val).dtype, REAL)
+                dest_float = z3.And(dest_float, op_real if not isinstance(op_real, bool) else z3.BoolVal(op_real))
+            if ex.st.branch(z3.Not(dest_float)) and ex.st.choose([True, True]) == 1:
                 ex.throw("TypeError", "Cannot cast ufunc output with casting rule 'same_kind'")
         _, fa, fb = broadcast(ex, cur, val)
         old = c.elem
@@ -639,7 +647,24 @@ def _copy(ex, args, kwargs, fr):
     return new_array(ex, c.shape, c.dtype, old)
 
 
-@npfn("numpy.array", "numpy.asarray")
+@npfn("numpy.asarray")
+def _asarray(ex, args, kwargs, fr):
+    """np.asarray(a[, dtype]): the SAME array object when a is already an ndarray of the requested type (no copy) — a caller that keeps
+    and later changes `a` changes the result too; otherwise as np.array."""
+    v = args[0]
+    dt = kwargs.get("dtype", args[1] if len(args) > 1 else None)
+    dtype = dtype_of_lib(dt) if dt is not None and not isinstance(dt, VNone) else None
+    if ex.is_arr(v):
+        if dtype is None:
+            return v
+        same = dtype_eq(ex, dtype, cell(ex, v).dtype)
+        if same is True or (same is not False and ex.st.branch(same)):
+            return v
+        return astype(ex, v, dtype)
+    return _array(ex, args, kwargs, fr)
+
+
+@npfn("numpy.array")
 def _array(ex, args, kwargs, fr):
     v = args[0]
     dt = kwargs.get("dtype", args[1] if len(args) > 1 else None)
